@@ -235,8 +235,8 @@ RULES["C16"] = ("every one of the fifteen tests x its documented parameters on e
                 "non-trivial: the statistic saturates (P < 1e-12 or > 1-1e-12) or the content is not uniform. distinct: hash of the case JSON.")
 PROPS["C16"] = {
     "level": "exploration",
-    "quick": shards(6, "TestC16", 1200, floor=400) + [S("TestC16Sweep", floor=20, env={"VERIF_PART": i, "VERIF_PARTS": 6}) for i in range(6)],
-    "thorough": shards(10, "TestC16", 12000, floor=4000, timeout=3400) + [S("TestC16Sweep", floor=20, env={"VERIF_PART": i, "VERIF_PARTS": 3}) for i in range(3)]
+    "quick": [S("TestC16PassBoundary", floor=50)] + shards(6, "TestC16", 1200, floor=400) + [S("TestC16Sweep", floor=20, env={"VERIF_PART": i, "VERIF_PARTS": 6}) for i in range(6)],
+    "thorough": [S("TestC16PassBoundary", floor=200, env={"VERIF_PER_TEST": 400})] + shards(10, "TestC16", 12000, floor=4000, timeout=3400) + [S("TestC16Sweep", floor=20, env={"VERIF_PART": i, "VERIF_PARTS": 3}) for i in range(3)]
                 + [S("TestC16Sweep", floor=10, env={"VERIF_PART": i, "VERIF_PARTS": 3, "VERIF_BIG": 1}, timeout=3400, mem_gb=60) for i in range(3)],
     "assumptions": ["DFT above 2^22 points is not executed"],
 }
